@@ -42,3 +42,11 @@ func (s *Subscriber) VerifPoller() *Poller    { return s.poller }
 
 // VerifRun runs the subscriber's polling loop (blocking until ctx is cancelled).
 func (s *Subscriber) VerifRun(ctx context.Context) error { return s.run(ctx) }
+
+// VerifDiscoveries gives the subscriber a peer-discovery channel the harness can feed (Start() wires this channel to libp2p
+// identify events)
+func (s *Subscriber) VerifDiscoveries(n int) chan<- peer.ID {
+	ch := make(chan peer.ID, n)
+	s.discoverCh = ch
+	return ch
+}
